@@ -9,7 +9,9 @@ package store
 import "github.com/canopy-network/canopy/lib"
 
 // VerifCommitID returns the commit id (height + state root) recorded for a version
-func (s *Store) VerifCommitID(version uint64) (lib.CommitID, lib.ErrorI) { return s.getCommitID(version) }
+func (s *Store) VerifCommitID(version uint64) (lib.CommitID, lib.ErrorI) {
+	return s.getCommitID(version)
+}
 
 // VerifHistoricStatePrefix returns the key prefix of the historical state partition
 func VerifHistoricStatePrefix() []byte { return historicStatePrefix }
